@@ -1,4 +1,5 @@
 """C14 - shape evaluation binds variables by identity and applies the transform."""
+import re
 from .. import ast as A
 from .. import shapecore as SC
 
@@ -166,7 +167,8 @@ def r3c_bind_check(rule, root=None):
     okall = True
     for c in calls:
         bs = A.enclosing_binders(fn["body"], c) or []
-        if any("vars()" in src for _n, src, _node in bs):
+        hoisted = {A.binding_name(l_["pat"]) for l_ in A.find(fn["body"], "Let") if l_.get("init") is not None and "vars()" in str(A.ftxt(l_["init"])) and A.binding_name(l_["pat"])}
+        if any("vars()" in src or any(re.match(r"\(?%s\b" % re.escape(h), src) for h in hoisted) for _n, src, _node in bs):
             continue
         okall = False
         rule.bad("ShapeVars::check|per-variable", "ShapeVars::check looks the variable up outside the iteration over the shape's variables (`%s`): only one variable is tested, and a shape with two named variables binds although one is missing" % str(A.ftxt(c))[:60], A.where(fn, c))
